@@ -117,7 +117,7 @@ def run_tlc(module, cfg_text, workers=1, simulate=None, depth=None, seed=None, e
     outl = []
     try:
         for line in p.stdout:
-            if line.startswith('"{') or line.startswith('"['):
+            if line.startswith('"{\\"') or line.startswith('"[{'):
                 try:
                     obj = json.loads(json.loads(line))
                 except Exception:
